@@ -272,6 +272,26 @@ theorem ker_int_shift_roll (n : ℕ) (hn : 0 < n) (off s : ℤ) (x u : ℤ) :
   rw [Int.emod_def (u - s) n]
   exact ⟨(x - (n : ℤ) / 2 + off) * ((u - s) / n), by ring⟩
 
+/-- the phase ramp an output shift `s` puts on input sample `x` (full period `m`, offset `off`):
+`exp(2πi·(x − ⌊m/2⌋ + off)·s/m)` -/
+noncomputable def ramp (m : ℕ) (off : ℤ) (s : ℝ) (x : ℤ) : ℂ :=
+  Complex.exp ((2 * Real.pi * Complex.I) * ((1 / (m : ℝ) * ((cc m x + off : ℤ) : ℝ) * s : ℝ) : ℂ))
+
+open ComplexConjugate in
+/-- on a full period the inverse kernel with an integer shift `t` at output sample `i` is the conjugate of the forward kernel (offset
+`off`, any real shift `s`) at input sample `(i − t − off) mod m`, times that sample's phase ramp -/
+theorem ker_inv_roll (m : ℕ) (hm : 0 < m) (off t : ℤ) (s : ℝ) (u i : ℤ) :
+    conj (ker (1 / m) m m 0 ((t : ℤ) : ℝ) u i)
+      = ramp m off s ((i - t - off) % m) * conj (ker (1 / m) m m off s ((i - t - off) % m) u) := by
+  rw [conj_ker, conj_ker, ramp, ← Complex.exp_add, Complex.exp_eq_exp_iff_exists_int]
+  refine ⟨cc m u * ((i - t - off) / m), ?_⟩
+  have hm' : (m : ℂ) ≠ 0 := by exact_mod_cast hm.ne'
+  rw [Int.emod_def]
+  unfold cc
+  push_cast
+  field_simp
+  ring
+
 /-! ## the model's transforms in sum form -/
 
 /-- `idft2` as sums: the adjoint kernel applied to `F`, scaled by `√|αr αc|` (unitary) or `1/F.size` -/
